@@ -494,7 +494,7 @@ pub fn run(run: &'static Run) {
         "operations ({} quick / {} thorough): upsert(p, v) and remove(p) for p in {{a, a/b, a/b/c, a., a0, b, ab/x, a-b/x, a/b./x}} (thorough + a-, a/b., a.d/x) and v in {{blob i1, exe i2, tree = empty-tree id, blob with null id (placeholder)}} (thorough + link at a), \
          write, set_root(empty), set_root(T0), cursor_at(q) alone and followed by upsert(b | b/c, blob) / upsert(b, empty tree) / remove(b | b/c) / write for q in {{a, a/b}}; \
          initial roots: empty and T0 = {{a/b/c, a/b., a0, b}} (three levels, sort-sensitive names); every history of length 0..=3 (thorough: 0..=3 over the larger alphabet plus length 4 over the base alphabet without the x-paths) from both roots, no state merging; \
-         sub `siblings`: every history of length 0..=3 (thorough 0..=5) over {} operations that interleave cursor upserts/removes/writes at a and a/b with pending root-editor edits in directories whose names have the cursor directory name as a byte prefix (ab/, a-b/, a.d/, a/b./, a/bc/), from the empty root, T0 and T1 = T0 + {{a-b/y, ab/y}}; \
+         sub `siblings`: every history of length 0..=3 (thorough 0..=5) over {} operations that interleave cursor upserts/removes/writes at a and a/b with pending root-editor edits in directories whose names have the cursor directory name as a byte prefix (ab/, a-b/, a.d/, a/b./, a/bc/), from the empty root, T0 and T1 = T0 + {{a-b/y, ab/y}} (length 5: T0 and T1 only); \
          each followed by a final write. Reference: nested-map model (insert replaces what it shadows, prefixes become directories, traversed empty-tree entries become plain directories, write drops placeholders and empty directories), \
          root/cursor ids from a from-scratch builder; every tree handed to the out callback must be in git order, without placeholders/duplicates and non-empty (except the (sub)root). \
          Every distinct directory the builder produced is rebuilt by `git mktree --batch` and the ids compared.",
@@ -540,7 +540,8 @@ pub fn run(run: &'static Run) {
         |emit| {
             for depth in 0..=sibling_depth {
                 vkit::enumerate::seqs(&siblings, depth, depth, |ops| {
-                    for root in [0u8, 1, 2] {
+                    // the longest histories start from the two non-empty roots only
+                    for root in [0u8, 1, 2].into_iter().skip(usize::from(depth == 5)) {
                         emit(History { root, ops: ops.to_vec() });
                     }
                 });
